@@ -292,8 +292,10 @@ class World:
         c.deserialize(image)
 
     # ---- a fresh worker process --------------------------------------
-    def incarnate(self, *, trust_negative=False, hydrate=True):
-        """Model a freshly started worker: every in-memory singleton dropped."""
+    def incarnate(self, *, trust_negative=False, hydrate=True, foreign_first=False):
+        """Model a freshly started worker: every in-memory singleton dropped.
+        foreign_first: the process also serves another database whose processor was constructed first and has
+        already hydrated the (process-wide) filter with ITS processed ids."""
         RunTaskHandler._executing_tasks.clear()
         reset_cancellation_state()
         try:
@@ -305,6 +307,8 @@ class World:
         except Exception:
             pass
         _dedup._deduplicator = RecordingDedup(expected_items=self.dedup_capacity)
+        if foreign_first:
+            _dedup._deduplicator.hydrate(["900001", "900002"])
         import dataclasses
 
         import stabilize.resilience.config as _rcfg
